@@ -100,7 +100,8 @@ static void plan_gen(rng_t *r, int thorough, char ty, int stream, plan_t *p) {
     val = rng_chance(r, 0.5) ? VAL_GENERIC : (rng_chance(r, 0.5) ? VAL_DIAGDOM : VAL_SCALED);
     /* fill-heavy inputs so that the growable arrays really expand: arrow pointing the wrong way, natural order, small fill estimate */
     int heavy = rng_chance(r, 0.3) && p->tune[1] != 0;
-    if (heavy) { pat = rng_chance(r, 0.6) ? PAT_ARROW : PAT_DENSE; p->colperm = 0; p->tune[6] = rng_int(r, 4, 6); if (p->n < 10) p->n = rng_int(r, 10, thorough ? 40 : 24); p->ldb = p->n + rng_int(r, 0, 2); val = VAL_DIAGDOM; nonsing = 2; }
+    if (heavy) { pat = rng_chance(r, 0.6) ? (rng_chance(r, 0.5) ? PAT_ARROW : PAT_ARROWTAIL) : PAT_DENSE; p->colperm = 0; p->tune[6] = rng_int(r, 4, 6); if (p->n < 10) p->n = rng_int(r, 10, thorough ? 40 : 24); p->ldb = p->n + rng_int(r, 0, 2); val = VAL_DIAGDOM; nonsing = 2;
+                 if (pat == PAT_ARROWTAIL) { p->tune[6] = rng_int(r, 1, 2); if (p->tune[2] < 1) p->tune[2] = rng_int(r, 1, 4); } }   /* several expansions of every array, then relaxed supernodes in the tail */
     if (p->style == ST_GSISX && !risky) { val = rng_chance(r, 0.5) ? VAL_GENERIC : VAL_DIAGDOM; nonsing = 2; }
     if (stream == 0 && rng_chance(r, 0.12) && p->style != ST_GSISX && p->n >= 2) { p->singular = 1; p->colperm = 0; p->nr = 0; p->u = 1.0; val = VAL_DIAGDOM; nonsing = 2; p->symm = 0; }
     if (stream == 1) { p->singular = 2; nonsing = rng_chance(r, 0.4) ? 0 : nonsing; if (rng_chance(r, 0.4)) val = VAL_SMALLINT; }
